@@ -6,6 +6,8 @@ import DarkluaModel.C05.Compose
 import DarkluaModel.Shared.VisitorSoundHeapV
 import DarkluaModel.C05.Unrequired
 import DarkluaModel.C05.OneModule
+import DarkluaModel.C05.Leaf
+import DarkluaModel.C05.Multi
 /-!
 # C05 — a bundle behaves like the program with its modules required normally: property theorems
 
@@ -305,8 +307,13 @@ that respect the reserved names, pairwise distinct accessor names other than `ca
 that only designates bundled modules, and external functions that return no heap references:
 whenever the program with the textbook `require` returns values `vs` with trace `tr` at some level,
 the bundle returns the same values with the same trace at some level.
-Proved instances: `bundle_refines_partial_nomodules`, `bundle_refines_partial_unrequired`; towards
-required modules see `bundle_refines_of_leaf` below and `meta/C05.json` (`proof_gaps`). -/
+NOT proved as stated, and NOT TRUE as stated: the statement forgets two side conditions — `I.M` (configurable in
+darklua: `modules_identifier`) must differ from the names of the generated code (`v`, `__modImpl`; with `I.M = "v"`
+the accessor's own local shadows the modules table), and the sources must not BIND `I.M` (a `local` of that name
+around a rewritten call site captures the accessor call; `reservedOK` only forbids references). With these two
+conditions the property IS proved, for every level: `bundle_refines_returned` (this shape), from
+`bundle_refines_modules` (equal outcomes at every level ≥ 1, any number of modules, arbitrary requires between them)
+and `bundle_refines_partial_nomodules`. The def is kept as first written. -/
 def bundle_refines_full : Prop :=
   ∀ (N : NumOps) (ρ : ExtOracle N) (_hρ : Sem.HeapU.OracleFlat ρ) (externs : List String) (I : BundleInput)
     (n : Nat) (vs : List CVal) (tr : List Event),
@@ -413,7 +420,7 @@ theorem bundle_refines_partial_unrequired {N : NumOps} (ρ : ExtOracle N) (hρ :
     by_cases hne : mods' = []
     · subst hne
       exact ⟨⟨[], []⟩, _, by simp [prelude, execSs], StExt.refl _, rfl, fun _ _ => rfl⟩
-    · obtain ⟨infos, σ', _, hex, _, hfold⟩ := prelude_establishes (callClosure ρ (n + 1)) ρ n ⟨[], []⟩ I.M mods'
+    · obtain ⟨infos, σ', _, hex, _, hfold, _⟩ := prelude_establishes (callClosure ρ (n + 1)) ρ n ⟨[], []⟩ I.M mods'
         (initState externs) hne hMv hMI hnodup' hcache'
       refine ⟨_, σ', hex, ?_, rfl, ?_⟩
       · rw [hfold]
@@ -495,33 +502,46 @@ end unrequired
 section onemodule
 open Sem.HeapU
 
-/-- **What remains for a required module: the call-site leaf.** In the context `bcx` (watched locals `M` ↦ cell 0
-on the left, `__ref_require` ↦ cell 2 on the right; invariant = the private objects of both preludes + the coupling
-of the two caches) the accessor call and the textbook require of `a` are related, for every closure-body relation. -/
+/-- **The call-site leaf.** In the context `bcx` (watched locals `M` ↦ cell 0 on the left, `__ref_require` ↦ cell 2
+on the right; invariant = the private objects of both preludes + the coupling of the two caches + the two module
+functions are RELATED closures) the accessor call and the textbook require of `a` are related, for every
+closure-body relation. -/
 def LeafSound (M a : String) (BL BR : Block) : Prop :=
   ∀ Q, QRefl Q → SoundE Q (bcx M a BL BR) (D1 M) (accessorCall M a) (refCall a)
 
-/-- **`bundle_refines_of_leaf`** — ONE bundled module `a` (arbitrary source `B`), REQUIRED anywhere in an arbitrary
-entry source (top level, inside closures, loops, …; any number of times): IF the call-site leaf is sound
-(`LeafSound`), the bundle and the reference program have the same outcome at every level ≥ 1.
-Everything else is proved here with `Sem.HeapU`: both preludes run concretely and only extend the heap, the new
-objects become private (`bump`), the context with the invariant is entered (`rebase`, `establish_I`), the two
-top-level environments satisfy `EnvOK` with the watched bindings, the two programs are the two images of one source
-(`subB_vr`), `fundB`, `observe_of_soundB`. -/
-theorem bundle_refines_of_leaf {N : NumOps} (ρ : ExtOracle N) (hρ : OracleFlat ρ) (externs : List String)
+/-- **The call-site leaf holds, whatever the two module bodies are** (`C05/Leaf.lean`): at levels 0 and 1 both calls
+time out; at level ≥ 2 either both caches hold a box (related contents, `Coupled`) or both are empty — then both
+sides allocate their temporaries (content-PINNED, so that they survive the bodies), the wrapper `__modImpl` and the
+module function of the reference program — RELATED closures by the invariant — are called through the call handler
+of level − 1 (`POK.lower`), failures and timeouts propagate identically, and on success both sides box the first
+result and store the box in their cache (two private writes in one step), which re-establishes the invariant. -/
+theorem leafSound (M a : String) (BL BR : Block) (hac : bytesOf a ≠ bytesOf "cache") (hMv : M ≠ "v")
+    (hMI : M ≠ implName) : LeafSound M a BL BR :=
+  fun _ _ => leaf_sound M a BL BR (fun h => hac h.symm) hMv hMI
+
+/-- **`bundle_refines_one_module`** — UNCONDITIONAL: one bundled module `a` with an ARBITRARY source `B` (it may
+itself call `require` of `a`, anywhere), REQUIRED anywhere in an arbitrary entry source (top level, inside closures,
+loops, conditionals; any number of times, or never): the bundle and the program with the textbook `require` have
+the same outcome — same values, same trace, same error, or both out of budget — at every level ≥ 1, for every flat
+oracle. Sources must not mention the names of the generated code.
+Proof (`Sem.HeapU`): both preludes run concretely and only extend the heap, the new objects become private (`bump`)
+except the two module functions, which enter the relation as a closure pair whose bodies are the two `subB` images
+of `B` (`srel_rebaseF`, `subB_vr`); the invariant holds (`establish_I`); the two top-level environments satisfy
+`EnvOK` with the watched bindings; the two programs are the two images of the entry source (`subB_vr`) with the
+call-site leaf `leafSound` at every rewritten call; `fundB`, `observe_of_soundB`. -/
+theorem bundle_refines_one_module {N : NumOps} (ρ : ExtOracle N) (hρ : OracleFlat ρ) (externs : List String)
     (I : BundleInput) (a : String) (B : Block) (n : Nat)
     (hmods : I.mods = [(a, B)])
     (hres : ∀ lit nm, I.res lit = some nm → nm = a)
     (hMv : I.M ≠ "v") (hMI : I.M ≠ implName)
     (hMr : I.M ≠ "__ref_require" ∧ I.M ≠ "__ref_modules" ∧ I.M ≠ "__ref_loaded")
     (hac : bytesOf a ≠ bytesOf "cache")
-    (hentry : NoRefB (D1 I.M) I.entry)
-    (hleaf : LeafSound I.M a (subB I.matcher true B) (subB I.matcher false B)) :
+    (hentry : NoRefB (D1 I.M) I.entry) (hB : NoRefB (D1 I.M) B) :
     runProgram ρ (n + 1) externs I.bundle = runProgram ρ (n + 1) externs I.reference := by
   let BL := subB I.matcher true B
   let BR := subB I.matcher false B
   let cx := bcx I.M a BL BR
-  -- the two programs are the two images of the entry source
+  -- every rewritten call site is the leaf
   have hleaf' : ∀ e p, I.matcher e = some p → NoRefE (D1 I.M) e → VR cx (D1 I.M) (.e p.1) (.e p.2) (D1 I.M) := by
     intro e p hm _
     simp only [BundleInput.matcher] at hm
@@ -531,26 +551,32 @@ theorem bundle_refines_of_leaf {N : NumOps} (ρ : ExtOracle N) (hρ : OracleFlat
       have := hres _ nm hr
       subst this
       subst hp
-      exact .genE hleaf
+      exact .genE (leafSound I.M nm BL BR hac hMv hMI)
     · cases hm
   have hvr := subB_vr (cx := cx) hleaf' I.entry hentry
+  have hvrB := subB_vr (cx := cx) hleaf' B hB
   -- the preludes
   obtain ⟨hc0, ht0, hf0⟩ := init_sizes (N := N) externs
   have hlen0 : (initState externs : State N).cells.length = 0 := by rw [hc0]; rfl
-  obtain ⟨infos, σB, _, hexB, _, hfold⟩ := prelude_establishes (callClosure ρ (n + 1)) ρ n ⟨[], []⟩ I.M [(a, BL)]
+  obtain ⟨infos, σB, _, hexB, _, hfold, _⟩ := prelude_establishes (callClosure ρ (n + 1)) ρ n ⟨[], []⟩ I.M [(a, BL)]
     (initState externs) (by simp) hMv hMI (by simp) (by intro nb hnb; simp at hnb; subst hnb; exact hac)
   have hσB : σB = postL I.M a BL externs := by
     rw [hfold]; simp [postL, hlen0, ht0]
   subst hσB
   have hexR := exec_refPrelude_one (callClosure ρ (n + 1)) ρ n refRequireFn (a, BR) (initState externs)
-  -- related states in the context with the invariant
+  -- related states in the context with the invariant; the two module functions become a related pair
   have hs0 : SRel (VQ Cx.none) Cx.none initRel (initState externs : State N) (initState externs) :=
     SRel.init (VQ Cx.none) externs trivial
   have hs1 := ((hs0.extLeft (postL_ext I.M a BL externs)).extRight (postR_ext a BR externs)).bump
-  have hs : SRel (VQ cx) cx (initRel.bump (postL I.M a BL externs) (postR a BR externs)) (postL I.M a BL externs)
-      (postR a BR externs) :=
-    hs1.rebase (fun _ _ h => h) (establish_I I.M a BL BR externs (fun h => hac h.symm))
-  have he : EnvOK cx (initRel.bump (postL I.M a BL externs) (postR a BR externs)) (D1 I.M)
+  have hI := establish_I (N := N) I.M a BL BR externs (fun h => hac h.symm)
+  have hs : SRel (VQ cx) cx (startRel (postL (N := N) I.M a BL externs) (postR a BR externs)) (postL I.M a BL externs)
+      (postR a BR externs) := by
+    refine srel_rebaseF hs1 (fun _ _ h => h) rfl rfl (fun x y => x = 0 ∧ y = 1) ?_ ?_ hI
+    · rintro _ _ _ _ ⟨rfl, rfl⟩ ⟨rfl, rfl⟩; simp
+    · rintro _ _ ⟨rfl, rfl⟩
+      refine ⟨_, _, hI.1.f0, hI.2.1.f1, .nil, D1 I.M, ?_, (envOK_body (N := N) hMI hMr).loc⟩
+      exact VR.fnBody rfl (by simp) hvrB
+  have he : EnvOK cx (startRel (postL (N := N) I.M a BL externs) (postR a BR externs)) (D1 I.M)
       (⟨[(I.M, 0)], []⟩ : Env N) ⟨envR3, []⟩ := by
     refine ⟨.nil, fun nm hnm => ?_, fun nm hnm => ?_, fun nm hnm => ?_⟩
     · have h0 : ¬ I.M = nm := fun e => hnm (by simp [D1, e])
@@ -597,7 +623,395 @@ theorem bundle_refines_of_leaf {N : NumOps} (ρ : ExtOracle N) (hρ : OracleFlat
       · cases h
       · exact h.symm
 
+
+/-- at the oracle the harness runs no hypothesis on the oracle is left -/
+theorem bundle_refines_one_module_driver (externs : List String) (I : BundleInput) (a : String) (B : Block) (n : Nat)
+    (hmods : I.mods = [(a, B)]) (hres : ∀ lit nm, I.res lit = some nm → nm = a)
+    (hMv : I.M ≠ "v") (hMI : I.M ≠ implName)
+    (hMr : I.M ≠ "__ref_require" ∧ I.M ≠ "__ref_modules" ∧ I.M ≠ "__ref_loaded")
+    (hac : bytesOf a ≠ bytesOf "cache") (hentry : NoRefB (D1 I.M) I.entry) (hB : NoRefB (D1 I.M) B) :
+    runProgram Shared.driverOracle (n + 1) externs I.bundle = runProgram Shared.driverOracle (n + 1) externs I.reference :=
+  bundle_refines_one_module _ driverOracle_flat externs I a B n hmods hres hMv hMI hMr hac hentry hB
+
+-- non-vacuity: module `a` has an effectful body and returns a fresh table; the entry requires it at the top level,
+-- a second time inside a closure that is called later, and compares the two results
+def exOneModule : BundleInput :=
+  { M := "__DARKLUA_BUNDLE_MODULES",
+    res := fun lit => if lit = [46, 47, 97] then some "a" else none,
+    mods := [("a", .mk [.callStmt (.call (.var "emit") none .tuple [.str [97]])] (some (.ret [.table [.named "x" .true]])))],
+    entry := .mk
+      [ .localAssign .loc [.mk "m1" none] [.call (.var "require") none .tuple [.str [46, 47, 97]]],
+        .localAssign .loc [.mk "f" none]
+          [.fn (.mk [] false none none [] [] (.mk [] (some (.ret [.call (.var "require") none .tuple [.str [46, 47, 97]]]))))],
+        .callStmt (.call (.var "emit") none .tuple [.bin .eq (.var "m1") (.call (.var "f") none .tuple [])]) ]
+      (some (.ret [.field (.var "m1") "x"])) }
+
+example (ρ : ExtOracle natOps) (hρ : OracleFlat ρ) (n : Nat) (hac : bytesOf "a" ≠ bytesOf "cache") :
+    runProgram ρ (n + 1) ["emit"] exOneModule.bundle = runProgram ρ (n + 1) ["emit"] exOneModule.reference :=
+  bundle_refines_one_module ρ hρ _ exOneModule "a" _ n rfl
+    (by intro lit nm h; simp only [exOneModule] at h; split at h <;> simp_all)
+    (by decide) (by decide) (by decide) hac (NoRefB.ofBool (by decide)) (NoRefB.ofBool (by decide))
+
+-- the entry of the example really contains two rewritten call sites
+example : subB exOneModule.matcher true exOneModule.entry = .mk
+      [ .localAssign .loc [.mk "m1" none] [accessorCall "__DARKLUA_BUNDLE_MODULES" "a"],
+        .localAssign .loc [.mk "f" none]
+          [.fn (.mk [] false none none [] [] (.mk [] (some (.ret [accessorCall "__DARKLUA_BUNDLE_MODULES" "a"]))))],
+        .callStmt (.call (.var "emit") none .tuple [.bin .eq (.var "m1") (.call (.var "f") none .tuple [])]) ]
+      (some (.ret [.field (.var "m1") "x"])) ∧
+    subB exOneModule.matcher false exOneModule.entry = .mk
+      [ .localAssign .loc [.mk "m1" none] [refCall "a"],
+        .localAssign .loc [.mk "f" none]
+          [.fn (.mk [] false none none [] [] (.mk [] (some (.ret [refCall "a"]))))],
+        .callStmt (.call (.var "emit") none .tuple [.bin .eq (.var "m1") (.call (.var "f") none .tuple [])]) ]
+      (some (.ret [.field (.var "m1") "x"])) := ⟨rfl, rfl⟩
+
 end onemodule
+
+section modules
+open Sem.HeapU
+
+/-- **`bundle_refines_modules`** — ANY number (≥ 1) of bundled modules with ARBITRARY sources and arbitrary
+requires between them (a DAG as darklua accepts it, but the proof does not use acyclicity: a runtime cycle exhausts
+the budget on both sides), an arbitrary entry source; call sites anywhere (top level, closures, loops, module
+bodies): the bundle and the program with the textbook `require` have the same outcome — same values, same trace,
+same error, or both out of budget — at every level ≥ 1, for every flat oracle.
+Hypotheses: distinct module names (as table keys) other than `cache`; every resolved literal designates a bundled
+module; the sources do not mention the names of the generated code.
+Proof: `Sem.HeapU` in the context `bcxN` (C05/Multi.lean). Both preludes are executed concretely
+(`prelude_establishes` with explicit ids, `exec_refPrelude_fold` + `refFold_facts`); all their objects become
+private except the pairs (wrapper `__modImpl` of module i, module function i of the reference), which enter the
+relation as closure pairs whose bodies are the two `subB` images of the module source (`srel_rebaseF`, `subB_vr`);
+`establish_IN`; every rewritten call site is the body-independent leaf `leaf_soundN`; `fundB`, `observe_of_soundB`. -/
+theorem bundle_refines_modules {N : NumOps} (ρ : ExtOracle N) (hρ : OracleFlat ρ) (externs : List String)
+    (I : BundleInput) (n : Nat)
+    (hne : I.mods ≠ [])
+    (hnodup : (I.mods.map fun nb => bytesOf nb.1).Nodup)
+    (hcache : ∀ nb ∈ I.mods, bytesOf nb.1 ≠ bytesOf "cache")
+    (hres : ∀ lit nm, I.res lit = some nm → nm ∈ I.names)
+    (hMv : I.M ≠ "v") (hMI : I.M ≠ implName)
+    (hMr : I.M ≠ "__ref_require" ∧ I.M ≠ "__ref_modules" ∧ I.M ≠ "__ref_loaded")
+    (hentry : NoRefB (D1 I.M) I.entry) (hsrc : ∀ nb ∈ I.mods, NoRefB (D1 I.M) nb.2) :
+    runProgram ρ (n + 1) externs I.bundle = runProgram ρ (n + 1) externs I.reference := by
+  let srcs : List (String × Block × Block) :=
+    I.mods.map fun nb => (nb.1, subB I.matcher true nb.2, subB I.matcher false nb.2)
+  let ms := mkMods 1 0 1 srcs
+  let cx := bcxN I.M ms
+  have hL : (srcs.map fun x => (x.1, x.2.1)) = I.mods.map fun nb => (nb.1, subB I.matcher true nb.2) := by
+    simp [srcs, List.map_map, Function.comp_def]
+  have hR : (srcs.map fun x => (x.1, x.2.2)) = I.mods.map fun nb => (nb.1, subB I.matcher false nb.2) := by
+    simp [srcs, List.map_map, Function.comp_def]
+  -- every rewritten call site is a leaf
+  have hleaf' : ∀ e p, I.matcher e = some p → NoRefE (D1 I.M) e → VR cx (D1 I.M) (.e p.1) (.e p.2) (D1 I.M) := by
+    intro e p hm _
+    simp only [BundleInput.matcher] at hm
+    split at hm
+    · simp only [Option.map_eq_some_iff] at hm
+      obtain ⟨nm, hr, hp⟩ := hm
+      have hmem := hres _ nm hr
+      simp only [BundleInput.names, List.mem_map] at hmem
+      obtain ⟨nb, hnb, rfl⟩ := hmem
+      obtain ⟨m, hm', hname⟩ := mkMods_name srcs 1 0 1 (nb.1, subB I.matcher true nb.2, subB I.matcher false nb.2)
+        (List.mem_map.mpr ⟨nb, hnb, rfl⟩)
+      subst hp
+      show VR cx _ (.e (accessorCall I.M nb.1)) (.e (refCall nb.1)) _
+      rw [← hname]
+      exact .genE fun Q _ => leaf_soundN I.M ms m hm' hMv hMI
+    · cases hm
+  have hvr := subB_vr (cx := cx) hleaf' I.entry hentry
+  -- the preludes
+  obtain ⟨hc0, ht0, hf0⟩ := init_sizes (N := N) externs
+  have hlen0 : (initState externs : State N).cells.length = 0 := by rw [hc0]; rfl
+  have hlenF0 : (initState externs : State N).closures.length = 0 := by rw [hf0]; rfl
+  generalize hmL : (I.mods.map fun nb => (nb.1, subB I.matcher true nb.2)) = modsL at hL
+  generalize hmR : (I.mods.map fun nb => (nb.1, subB I.matcher false nb.2)) = modsR at hR
+  have hndL : (modsL.map fun nb => bytesOf nb.1).Nodup := by rw [← hmL, List.map_map]; exact hnodup
+  have hndR : (modsR.map fun nb => bytesOf nb.1).Nodup := by rw [← hmR, List.map_map]; exact hnodup
+  have hcacheL : ∀ nb ∈ modsL, bytesOf nb.1 ≠ bytesOf "cache" := by
+    rw [← hmL]; intro nb hnb
+    obtain ⟨x, hx, rfl⟩ := List.mem_map.mp hnb
+    exact hcache x hx
+  have hneL : modsL ≠ [] := by rw [← hmL]; simpa using hne
+  obtain ⟨infos, σB, _, hexB, hBI, hfold, hinfos⟩ := prelude_establishes (callClosure ρ (n + 1)) ρ n ⟨[], []⟩ I.M modsL
+    (initState externs) hneL hMv hMI hndL hcacheL
+  have hextB : StExt (initState externs) σB := by
+    rw [hfold]; exact foldDefs_ext I.M _ _ modsL (afterTable_ext _) (by simp [initState])
+  rw [hlen0, hlenF0] at hinfos
+  have hexR := exec_refPrelude_fold (callClosure ρ (n + 1)) ρ n refRequireFn modsR (initState externs : State N)
+  obtain ⟨envR', σR', hexR2, hextR', _, _⟩ := exec_refPrelude (callClosure ρ (n + 1)) ρ n ⟨[], []⟩ refRequireFn modsR
+    (initState externs : State N)
+  have henv3 : env3Of (initState externs : State N) = envR3 := by simp [env3Of, hlen0, envR3]
+  rw [henv3, ht0] at hexR
+  have hσR : σR' = modsR.foldl (refStep 4 envR3) (afterRefFn refRequireFn (initState externs)) := by
+    have := hexR.symm.trans hexR2
+    injection this with _ h2
+    exact h2.symm
+  subst hσR
+  -- the state before the module assignments of the reference program
+  have a1 : (afterRefFn refRequireFn (initState externs) : State N).cells = [.tbl 3, .tbl 4, .fn 0] := by
+    simp [afterRefFn, afterRefLa, State.allocCell, State.allocTable, State.allocClosure, State.setCell, initState, listSet]
+  have a2 : (afterRefFn refRequireFn (initState externs) : State N).closures = [⟨refRequireFn, envR3, []⟩] := by
+    simp [afterRefFn, afterRefLa, State.allocCell, State.allocTable, State.allocClosure, State.setCell, initState, env3Of,
+      envR3]
+  have a3 : (afterRefFn refRequireFn (initState externs) : State N).tables.length = 5 := by
+    simp [afterRefFn, afterRefLa, State.allocCell, State.allocTable, State.allocClosure, State.setCell, initState]
+  have a4 : (afterRefFn refRequireFn (initState externs) : State N).tables[3]? = some ⟨[], none⟩ := by
+    simp [afterRefFn, afterRefLa, State.allocCell, State.allocTable, State.allocClosure, State.setCell, initState]
+  have a5 : ((afterRefFn refRequireFn (initState externs) : State N).getTable 4) = ⟨[], none⟩ := by
+    simp [afterRefFn, afterRefLa, State.allocCell, State.allocTable, State.allocClosure, State.setCell, initState,
+      State.getTable]
+  obtain ⟨g1, g2, g3, g4, g5, g6, g7⟩ := refFold_facts 4 envR3 modsR (afterRefFn refRequireFn (initState externs) : State N)
+    (by rw [a3]; omega) hndR
+  -- the invariant
+  have hinfra := hBI.infra
+  have hI : cx.I N (startRelN ms σB (modsR.foldl (refStep 4 envR3) (afterRefFn refRequireFn (initState externs)))) σB
+      (modsR.foldl (refStep 4 envR3) (afterRefFn refRequireFn (initState externs))) := by
+    refine establish_IN I.M ms σB _ ?_ ?_ ?_ ?_ ?_ ?_ ?_ ?_ ?_ ?_ ?_ ?_ ?_
+    · have := hinfra.cellM; simpa [layoutOf, hlen0, ht0] using this
+    · have := hinfra.cache; simpa [layoutOf, hlen0, ht0] using this
+    · have := hinfra.plainC; simpa [layoutOf, hlen0, ht0] using this
+    · have := hinfra.ltC; simpa [layoutOf, hlen0, ht0] using this
+    · intro m hm
+      have hmi := (mem_mkMods srcs 1 0 1 m hm).2.1
+      rw [hL, ← hinfos] at hmi
+      have r := hBI.ready _ hmi
+      refine ⟨?_, ?_, ?_, ?_⟩
+      · have := r.field; simpa [layoutOf, hlen0, ht0] using this
+      · have := r.acc; simpa [layoutOf, hlen0, ht0, ModInfo.locals, envLIi] using this
+      · have := r.cell; simpa [layoutOf, hlen0, ht0] using this
+      · have := r.impl; simpa [layoutOf, hlen0, ht0, ModInfo.locals, envLIi] using this
+    · intro m hm
+      have hmi := (mem_mkMods srcs 1 0 1 m hm).2.1
+      rw [hL, ← hinfos] at hmi
+      have := hBI.slots _ hmi
+      simpa [SlotOk, layoutOf, hlen0, ht0] using this
+    · rw [g1, a1]; rfl
+    · rw [g1, a1]; rfl
+    · rw [g1, a1]; rfl
+    · exact g2 0 _ (by rw [a2]; rfl)
+    · rw [g3 3 (by omega)]; exact a4
+    · rw [g5, a3]; omega
+    · intro m hm
+      have hmr := (mem_mkMods srcs 1 0 1 m hm).2.2.1
+      rw [hR] at hmr
+      have := g7 (m.name, m.bodyR, m.modId) (by rw [a2]; exact hmr)
+      exact this
+  -- related states
+  have hs0 : SRel (VQ Cx.none) Cx.none initRel (initState externs : State N) (initState externs) :=
+    SRel.init (VQ Cx.none) externs trivial
+  have hs1 := ((hs0.extLeft hextB).extRight hextR').bump
+  have hs : SRel (VQ cx) cx (startRelN ms σB (modsR.foldl (refStep 4 envR3) (afterRefFn refRequireFn (initState externs)))) σB
+      (modsR.foldl (refStep 4 envR3) (afterRefFn refRequireFn (initState externs))) := by
+    refine srel_rebaseF hs1 (fun _ _ h => h) rfl rfl (fun x y => ∃ m ∈ ms, x = m.implId ∧ y = m.modId) ?_ ?_ hI
+    · rintro _ _ _ _ ⟨m, hm, rfl, rfl⟩ ⟨m', hm', rfl, rfl⟩
+      obtain ⟨_, _, _, i, _, e1, _, e2⟩ := mem_mkMods srcs 1 0 1 m hm
+      obtain ⟨_, _, _, i', _, e1', _, e2'⟩ := mem_mkMods srcs 1 0 1 m' hm'
+      constructor <;> intro h <;> omega
+    · rintro _ _ ⟨m, hm, rfl, rfl⟩
+      have hsrcm := (mem_mkMods srcs 1 0 1 m hm).1
+      obtain ⟨nb, hnb, hnbe⟩ := List.mem_map.mp hsrcm
+      have hbl : m.bodyL = subB I.matcher true nb.2 := by injection hnbe with _ h2; injection h2 with h3 _; exact h3.symm
+      have hbr : m.bodyR = subB I.matcher false nb.2 := by injection hnbe with _ h2; injection h2 with _ h4; exact h4.symm
+      have hvrB := subB_vr (cx := cx) hleaf' nb.2 (hsrc nb hnb)
+      refine ⟨_, _, hI.1.impl m hm, hI.2.1.mod m hm, .nil, D1 I.M, ?_, envRel_body rfl rfl rfl m.cI hMI hMr⟩
+      rw [hbl, hbr]
+      exact VR.fnBody rfl (by simp) hvrB
+  have he : EnvOK cx (startRelN ms σB (modsR.foldl (refStep 4 envR3) (afterRefFn refRequireFn (initState externs)))) (D1 I.M)
+      (⟨[(I.M, 0)], []⟩ : Env N) ⟨envR3, []⟩ := by
+    refine ⟨.nil, fun nm hnm => ?_, fun nm hnm => ?_, fun nm hnm => ?_⟩
+    · have h0 : ¬ I.M = nm := fun e => hnm (by simp [D1, e])
+      have h1 : ¬ "__ref_require" = nm := fun e => hnm (by simp [D1, ← e])
+      have h2 : ¬ "__ref_modules" = nm := fun e => hnm (by simp [D1, ← e])
+      have h3 : ¬ "__ref_loaded" = nm := fun e => hnm (by simp [D1, ← e])
+      simp [lookupAssoc, envR3, h0, h1, h2, h3, OptRel]
+    · simp only [cx, bcxN, List.mem_cons, List.mem_nil_iff, or_false] at hnm
+      rcases hnm with h | h <;> subst h <;> simp [D1]
+    · have hw : nm = I.M ∨ nm = "__ref_require" := by simpa [D1] using hnm
+      have hr1 : ¬ "__ref_require" = I.M := fun e => hMr.1 e.symm
+      have hr2 : ¬ "__ref_modules" = I.M := fun e => hMr.2.1 e.symm
+      have hr3 : ¬ "__ref_loaded" = I.M := fun e => hMr.2.2 e.symm
+      rcases hw with h | h <;> subst h
+      · simp [cx, bcxN, lookupAssoc, envR3, hr1, hr2, hr3]
+      · simp [cx, bcxN, lookupAssoc, envR3, hMr.1]
+  have hobs := observe_of_soundB (fundB hvr) ρ hρ (fun _ => rfl) (n + 1) hs he
+  -- put the programs in `prelude ++ rest` form
+  simp only [BundleInput.bundle, BundleInput.reference]
+  rw [hmL, hmR]
+  cases hsb : subB I.matcher true I.entry with
+  | mk stB lastB =>
+    cases hsr : subB I.matcher false I.entry with
+    | mk stR lastR =>
+      rw [hsb, hsr] at hobs
+      have hexB' : execSs (callClosure ρ (n + 1)) ρ (n + 1) ⟨[], []⟩ (prelude I.M modsL) (initState externs)
+          = .ok (.next ⟨[(I.M, 0)], []⟩) σB := by
+        rw [hexB, hlen0]
+      have h1 : execB (callClosure ρ (n + 1)) ρ (n + 1) ⟨[], []⟩ (assemble I.M modsL (.mk stB lastB)) (initState externs)
+          = execB (callClosure ρ (n + 1)) ρ (n + 1) ⟨[(I.M, 0)], []⟩ (.mk stB lastB) σB := by
+        simp only [assemble]
+        exact execB_append_next _ ρ _ _ stB lastB _ _ _ _ hexB'
+      have h2 : execB (callClosure ρ (n + 1)) ρ (n + 1) ⟨[], []⟩ (referenceBlocks modsR (.mk stR lastR)) (initState externs)
+          = execB (callClosure ρ (n + 1)) ρ (n + 1) ⟨envR3, []⟩ (.mk stR lastR)
+              (modsR.foldl (refStep 4 envR3) (afterRefFn refRequireFn (initState externs))) := by
+        rw [referenceBlocks_eq]
+        exact execB_append_next _ ρ _ _ stR lastR _ _ _ _ hexR
+      simp only [runProgram, runChunk_eq_wrapCtl]
+      rw [h1, h2]
+      rcases hobs with ⟨h, _⟩ | ⟨h, _⟩ | h
+      · cases h
+      · cases h
+      · exact h.symm
+
+/-- at the oracle the harness runs no hypothesis on the oracle is left -/
+theorem bundle_refines_modules_driver (externs : List String) (I : BundleInput) (n : Nat)
+    (hne : I.mods ≠ []) (hnodup : (I.mods.map fun nb => bytesOf nb.1).Nodup)
+    (hcache : ∀ nb ∈ I.mods, bytesOf nb.1 ≠ bytesOf "cache")
+    (hres : ∀ lit nm, I.res lit = some nm → nm ∈ I.names)
+    (hMv : I.M ≠ "v") (hMI : I.M ≠ implName)
+    (hMr : I.M ≠ "__ref_require" ∧ I.M ≠ "__ref_modules" ∧ I.M ≠ "__ref_loaded")
+    (hentry : NoRefB (D1 I.M) I.entry) (hsrc : ∀ nb ∈ I.mods, NoRefB (D1 I.M) nb.2) :
+    runProgram Shared.driverOracle (n + 1) externs I.bundle = runProgram Shared.driverOracle (n + 1) externs I.reference :=
+  bundle_refines_modules _ driverOracle_flat externs I n hne hnodup hcache hres hMv hMI hMr hentry hsrc
+
+-- non-vacuity: a diamond-free chain with sharing — module `b` requires `a` (and mutates what it gets), the entry
+-- requires `b`, then `a` (already loaded by `b`), then `a` again inside a closure; `c` is bundled but never required
+def exModules : BundleInput :=
+  { M := "__DARKLUA_BUNDLE_MODULES",
+    res := fun lit => if lit = [46, 47, 97] then some "a" else if lit = [46, 47, 98] then some "b" else none,
+    mods :=
+      [ ("a", .mk [.callStmt (.call (.var "emit") none .tuple [.str [97]])] (some (.ret [.table [.named "x" .true]]))),
+        ("b", .mk
+          [ .localAssign .loc [.mk "a" none] [.call (.var "require") none .tuple [.str [46, 47, 97]]],
+            .assign [.field (.var "a") "y"] [.false],
+            .callStmt (.call (.var "emit") none .tuple [.str [98]]) ]
+          (some (.ret [.fn (.mk [] false none none [] []
+            (.mk [] (some (.ret [.call (.var "require") none .tuple [.str [46, 47, 97]]]))))]))),
+        ("c", .mk [.callStmt (.call (.var "emit") none .tuple [.str [99]])] none) ],
+    entry := .mk
+      [ .localAssign .loc [.mk "f" none] [.call (.var "require") none .tuple [.str [46, 47, 98]]],
+        .localAssign .loc [.mk "m1" none] [.call (.var "require") none .tuple [.str [46, 47, 97]]],
+        .callStmt (.call (.var "emit") none .tuple [.bin .eq (.var "m1") (.call (.var "f") none .tuple [])]) ]
+      (some (.ret [.field (.var "m1") "y"])) }
+
+example (ρ : ExtOracle natOps) (hρ : OracleFlat ρ) (n : Nat)
+    (hnd : ([bytesOf "a", bytesOf "b", bytesOf "c"]).Nodup)
+    (hc : bytesOf "a" ≠ bytesOf "cache" ∧ bytesOf "b" ≠ bytesOf "cache" ∧ bytesOf "c" ≠ bytesOf "cache") :
+    runProgram ρ (n + 1) ["emit"] exModules.bundle = runProgram ρ (n + 1) ["emit"] exModules.reference :=
+  bundle_refines_modules ρ hρ _ exModules n (by simp [exModules]) (by simpa [exModules] using hnd)
+    (by intro nb hnb; simp only [exModules, List.mem_cons, List.mem_nil_iff, or_false] at hnb
+        rcases hnb with rfl | rfl | rfl
+        · exact hc.1
+        · exact hc.2.1
+        · exact hc.2.2)
+    (by intro lit nm h; simp only [exModules] at h; split at h
+        · cases h; simp [BundleInput.names, exModules]
+        · split at h
+          · cases h; simp [BundleInput.names, exModules]
+          · cases h)
+    (by decide) (by decide) (by decide) (NoRefB.ofBool (by decide))
+    (by intro nb hnb; simp only [exModules, List.mem_cons, List.mem_nil_iff, or_false] at hnb
+        rcases hnb with rfl | rfl | rfl <;> exact NoRefB.ofBool (by decide))
+
+/-! ### names as byte strings -/
+
+theorem byteArray_toList_loop_eq (bs : ByteArray) : ∀ (i : Nat) (r : List UInt8),
+    ByteArray.toList.loop bs i r = r.reverse ++ bs.data.toList.drop i := by
+  intro i r
+  induction i, r using ByteArray.toList.loop.induct bs with
+  | case1 i r h ih =>
+    rw [ByteArray.toList.loop, if_pos h, ih]
+    have hs : i < bs.data.size := h
+    have hi : i < bs.data.toList.length := by rw [Array.length_toList]; exact hs
+    rw [List.drop_eq_getElem_cons hi, List.reverse_cons, List.append_assoc]
+    have hg : bs.get! i = bs.data.toList[i] := by
+      cases bs with
+      | mk d =>
+        show d[i]! = _
+        rw [getElem!_pos d i hs, Array.getElem_toList]
+    rw [hg]; rfl
+  | case2 i r h =>
+    rw [ByteArray.toList.loop, if_neg h]
+    have hs : ¬ i < bs.data.size := h
+    have hi : bs.data.toList.length ≤ i := by rw [Array.length_toList]; omega
+    rw [List.drop_eq_nil_of_le hi, List.append_nil]
+
+theorem byteArray_toList_eq_data (bs : ByteArray) : bs.toList = bs.data.toList := by
+  rw [ByteArray.toList, byteArray_toList_loop_eq]; simp
+
+/-- different names are different table keys -/
+theorem bytesOf_inj {a b : String} (h : bytesOf a = bytesOf b) : a = b := by
+  simp only [bytesOf] at h
+  rw [byteArray_toList_eq_data, byteArray_toList_eq_data] at h
+  exact String.toByteArray_inj.mp (ByteArray.ext (Array.toList_inj.mp h))
+
+/-- with at least one module the reference program cannot finish at level 0 (storing the first module function
+indexes a table) — the budget of level 0 is spent in the prelude, exactly as for the bundle -/
+theorem reference_level0 {N : NumOps} (ρ : ExtOracle N) (externs : List String) (mods : List (String × Block))
+    (entry : Block) (hne : mods ≠ []) : runProgram ρ 0 externs (referenceBlocks mods entry) = .timeout := by
+  cases mods with
+  | nil => exact absurd rfl hne
+  | cons nb rest =>
+    cases entry with
+    | mk stmts last =>
+      rw [referenceBlocks_eq]
+      have e1 := exec_refLa (callClosure ρ 0) ρ 0 ⟨[], []⟩ (initState externs : State N)
+      simp only [runProgram, runChunk, execB, List.cons_append, List.nil_append, List.map_cons, execSs, e1, Res.bind]
+      simp [execS, refAssign, evalTargets, evalTarget, evalE, evalEs, storeTargets, storeTarget, setIndexVal, Res.bind,
+        lookupVar, lookupAssoc, first, observe]
+
+/-- **`bundle_refines_returned`** — the ∃-level reading of the property (the shape of `bundle_refines_full`), for any
+number of modules (none included) and every level: whenever the program with the textbook `require` returns values
+`vs` with trace `tr`, so does the bundle (at the same level). Hypotheses as in `bundle_refines_modules`, plus the
+sources never declare or assign `require` (`reservedOK`, needed by the no-module case). -/
+theorem bundle_refines_returned {N : NumOps} (ρ : ExtOracle N) (hρ : OracleFlat ρ) (externs : List String)
+    (I : BundleInput) (n : Nat) (vs : List CVal) (tr : List Event)
+    (hnodup : I.names.Nodup) (hcache : "cache" ∉ I.names)
+    (hres : ∀ lit nm, I.res lit = some nm → nm ∈ I.names)
+    (hMv : I.M ≠ "v") (hMI : I.M ≠ implName)
+    (hMr : I.M ≠ "__ref_require" ∧ I.M ≠ "__ref_modules" ∧ I.M ≠ "__ref_loaded")
+    (hentry : NoRefB (D1 I.M) I.entry) (hentry' : I.reservedOK I.entry = true)
+    (hsrc : ∀ nb ∈ I.mods, NoRefB (D1 I.M) nb.2)
+    (h : runProgram ρ n externs I.reference = .returned vs tr) :
+    ∃ m, runProgram ρ m externs I.bundle = .returned vs tr := by
+  have hnd : (I.mods.map fun nb => bytesOf nb.1).Nodup := by
+    have : (I.mods.map fun nb => bytesOf nb.1) = I.names.map bytesOf := by
+      simp [BundleInput.names, List.map_map, Function.comp_def]
+    rw [this]
+    exact List.Pairwise.map bytesOf (fun a b hab e => hab (bytesOf_inj e)) hnodup
+  have hc : ∀ nb ∈ I.mods, bytesOf nb.1 ≠ bytesOf "cache" := by
+    intro nb hnb e
+    exact hcache (by rw [← bytesOf_inj e]; exact List.mem_map.mpr ⟨nb, hnb, rfl⟩)
+  by_cases hne : I.mods = []
+  · exact ⟨n, by rw [bundle_refines_partial_nomodules ρ hρ externs I n hne hres hentry']; exact h⟩
+  · cases n with
+    | zero =>
+      have : runProgram ρ 0 externs I.reference = .timeout := by
+        simp only [BundleInput.reference]
+        exact reference_level0 ρ externs _ _ (by simpa using hne)
+      rw [this] at h; cases h
+    | succ n =>
+      exact ⟨n + 1, by rw [bundle_refines_modules ρ hρ externs I n hne hnd hc hres hMv hMI hMr hentry hsrc]; exact h⟩
+
+-- non-vacuity of `bundle_refines_returned`: its hypotheses hold for `exModules` (names compared as Strings)
+example (ρ : ExtOracle natOps) (hρ : OracleFlat ρ) (n : Nat) (vs : List CVal) (tr : List Event)
+    (h : runProgram ρ n ["emit"] exModules.reference = .returned vs tr) :
+    ∃ m, runProgram ρ m ["emit"] exModules.bundle = .returned vs tr :=
+  bundle_refines_returned ρ hρ _ exModules n vs tr (by decide) (by decide)
+    (by intro lit nm h; simp only [exModules] at h; split at h
+        · cases h; simp [BundleInput.names, exModules]
+        · split at h
+          · cases h; simp [BundleInput.names, exModules]
+          · cases h)
+    (by decide) (by decide) (by decide) (NoRefB.ofBool (by decide)) (by decide)
+    (by intro nb hnb; simp only [exModules, List.mem_cons, List.mem_nil_iff, or_false] at hnb
+        rcases hnb with rfl | rfl | rfl <;> exact NoRefB.ofBool (by decide))
+    h
+
+end modules
+
+
+
+
+
 
 /-- **`bundle_refines_partial`** (one module): the statements the bundler puts in front of the entry
 execute to exactly this: the entry's scope gains the modules identifier `M` and nothing else (no
